@@ -58,3 +58,44 @@ Qed.
 (* the one-shot loop reports success although the socket took only part of the data *)
 Theorem oneshot_refuted : exists oracle data t rest, send_data false oracle data = (t, Some true, rest) /\ t <> data.
 Proof. exists [RTake 2], [1%N; 2%N; 3%N], [1%N; 2%N], []. split; [reflexivity|discriminate]. Qed.
+
+(* ---- one message, one connection (D79) ---- *)
+Lemma send_loop2_spec oracle : forall data replaced a b a' b' res,
+  send_loop2 true oracle data replaced a b = (a', b', res) ->
+  b' = b /\ (exists k, a' = a ++ firstn k data) /\ (res = Some true -> a' = a ++ data \/ (replaced = true /\ data = [])).
+Proof.
+  induction oracle as [|r rest IH]; intros data replaced a b a' b' res H; cbn [send_loop2] in H.
+  - destruct data; injection H as <- <- <-; (split; [reflexivity|]; split; [exists 0; cbn; rewrite app_nil_r; reflexivity|]).
+    + intros _. left. rewrite app_nil_r. reflexivity.
+    + discriminate.
+  - destruct data as [|x data'] eqn:D.
+    { injection H as <- <- <-. split; [reflexivity|]. split; [exists 0; cbn; rewrite app_nil_r; reflexivity|]. intros _. left. rewrite app_nil_r. reflexivity. }
+    rewrite <- D in *. destruct r as [r|].
+    + destruct (replaced && true) eqn:RP.
+      * injection H as <- <- <-. split; [reflexivity|]. split; [exists 0; cbn; rewrite app_nil_r; reflexivity|]. discriminate.
+      * assert (replaced = false) by (destruct replaced; [discriminate RP|reflexivity]). subst replaced.
+        destruct r as [n| |].
+        -- cbn [andb] in H. apply IH in H. destruct H as (Hb & [k Hk] & Hs). split; [exact Hb|]. set (j := Nat.min (Nat.max n 1) (length data)) in *. split.
+           ++ exists (j + k). rewrite Hk, <- app_assoc. f_equal. rewrite <- (firstn_skipn j data) at 3. rewrite firstn_app, firstn_firstn.
+              assert (length (firstn j data) = j) by (rewrite firstn_length; unfold j; lia).
+              replace (Nat.min (j + k) j) with j by lia. replace (j + k - length (firstn j data)) with k by lia. reflexivity.
+           ++ intro R. destruct (Hs R) as [E|[E _]]; [|discriminate E]. left. rewrite E, <- app_assoc, firstn_skipn. reflexivity.
+        -- apply IH in H. exact H.
+        -- injection H as <- <- <-. split; [reflexivity|]. split; [exists 0; cbn; rewrite app_nil_r; reflexivity|]. discriminate.
+    + apply IH in H. destruct H as (Hb & Hk & Hs). split; [exact Hb|]. split; [exact Hk|].
+      intro R. destruct (Hs R) as [E|[_ E]]; [left; exact E|]. rewrite D in E. discriminate E.
+Qed.
+
+(* whatever the socket does and whenever the connection is replaced: the connection that follows gets nothing of the message, the one it was
+   started on has taken a prefix, and a reported success means it has taken all of it *)
+Theorem send_stays_on_its_connection oracle data a b res :
+  send_data2 true oracle data = (a, b, res) -> b = [] /\ (exists k, a = firstn k data) /\ (res = Some true -> a = data).
+Proof.
+  unfold send_data2. intro H. apply send_loop2_spec in H. destruct H as (Hb & Hk & Hs). split; [exact Hb|]. split; [exact Hk|].
+  intro R. destruct (Hs R) as [E|[E _]]; [exact E|discriminate E].
+Qed.
+
+(* looking the socket up again for every part (the code before D79): a success with the message spread over two connections *)
+Theorem send_across_connections_refuted :
+  send_data2 false [R2 (RTake 2); RReplaced; R2 (RTake 5)] [1; 2; 3; 4]%N = ([1; 2]%N, [3; 4]%N, Some true).
+Proof. vm_compute. reflexivity. Qed.
